@@ -441,13 +441,14 @@ func checkBig(c BigCase, o *vf.Obs) error {
 	if err != nil {
 		return fmt.Errorf("explain.ParseCNF rejects a well-formed text of %d bytes: %v", len(txt), err)
 	}
-	if pb.NbVars != c.N || len(pb.Clauses) != len(c.Clauses) {
-		return fmt.Errorf("parsed problem has %d variables and %d clauses, the text %d and %d", pb.NbVars, len(pb.Clauses), c.N, len(c.Clauses))
-	}
-	for i, cl := range pb.Clauses {
-		if !reflect.DeepEqual(cl, c.Clauses[i]) {
-			return fmt.Errorf("clause %d of the text is %v, parsed as %v (text of %d bytes, clauses written over several lines)", i, c.Clauses[i], cl, len(txt))
+	// the parsed problem must have the text's variables and models (it is the checker below that needs the right clauses)
+	if want, got := oracle.Models(c.N, oracle.CNFPred(c.Clauses)), oracle.Models(c.N, oracle.CNFPred(pb.Clauses)); pb.NbVars != c.N || !reflect.DeepEqual(got, want) {
+		for i, cl := range pb.Clauses {
+			if i < len(c.Clauses) && !reflect.DeepEqual(cl, c.Clauses[i]) {
+				return fmt.Errorf("the parsed problem has %d variables and %d models, the text %d and %d; clause %d of the text is %v, parsed as %v (text of %d bytes, clauses written over several lines)", pb.NbVars, len(got), c.N, len(want), i, c.Clauses[i], cl, len(txt))
+			}
 		}
+		return fmt.Errorf("the parsed problem has %d variables, %d clauses and %d models; the text %d, %d and %d", pb.NbVars, len(pb.Clauses), len(got), c.N, len(c.Clauses), len(want))
 	}
 	// the bare empty clause is derivable by unit propagation: both entry points must accept it
 	r := oracle.NewRUP(c.N, c.Clauses)
